@@ -46,6 +46,8 @@ type Store interface {
 	Open() error // (re)open on the same file = restart
 	Close()
 	ProcessBlock(b MBlock) error
+	// ProcessBlockCtx is ProcessBlock under the caller's context (cancellation mid-block)
+	ProcessBlockCtx(ctx context.Context, b MBlock) error
 	Reorg(first uint64) error
 	LastProcessed() (uint64, error)
 	IsHalted() bool
@@ -104,15 +106,16 @@ func (s *BridgeStore) Close() {
 		s.P = nil
 	}
 }
-func (s *BridgeStore) ProcessBlock(b MBlock) error {
+func (s *BridgeStore) ProcessBlockCtx(ctx context.Context, b MBlock) error {
 	evs := make([]interface{}, len(b.Events))
 	for i, e := range b.Events {
 		ev := e.(bridgesync.Event)
 		// hand a private copy to the store: ProcessBlock must not depend on aliasing
 		evs[i] = cloneBridgeEvent(ev)
 	}
-	return s.P.ProcessBlock(bg, aggsync.Block{Num: b.Num, Hash: b.Hash, Events: evs})
+	return s.P.ProcessBlock(ctx, aggsync.Block{Num: b.Num, Hash: b.Hash, Events: evs})
 }
+func (s *BridgeStore) ProcessBlock(b MBlock) error { return s.ProcessBlockCtx(bg, b) }
 func (s *BridgeStore) Reorg(first uint64) error         { return s.P.Reorg(bg, first) }
 func (s *BridgeStore) LastProcessed() (uint64, error)   { return s.P.GetLastProcessedBlock(bg) }
 func (s *BridgeStore) IsHalted() bool                   { return s.P.IsHalted() }
@@ -581,7 +584,7 @@ func (s *L1Store) Close() {
 		s.P = nil
 	}
 }
-func (s *L1Store) ProcessBlock(b MBlock) error {
+func (s *L1Store) ProcessBlockCtx(ctx context.Context, b MBlock) error {
 	evs := make([]interface{}, len(b.Events))
 	for i, e := range b.Events {
 		ev := e.(l1infotreesync.Event)
@@ -604,8 +607,9 @@ func (s *L1Store) ProcessBlock(b MBlock) error {
 		}
 		evs[i] = o
 	}
-	return s.P.ProcessBlock(bg, aggsync.Block{Num: b.Num, Hash: b.Hash, Events: evs})
+	return s.P.ProcessBlock(ctx, aggsync.Block{Num: b.Num, Hash: b.Hash, Events: evs})
 }
+func (s *L1Store) ProcessBlock(b MBlock) error { return s.ProcessBlockCtx(bg, b) }
 func (s *L1Store) Reorg(first uint64) error       { return s.P.Reorg(bg, first) }
 func (s *L1Store) LastProcessed() (uint64, error) { return s.P.GetLastProcessedBlock(bg) }
 func (s *L1Store) IsHalted() bool                 { return s.P.IsHalted() }
@@ -1046,7 +1050,7 @@ func (s *GERStore) Close() {
 		s.P = nil
 	}
 }
-func (s *GERStore) ProcessBlock(b MBlock) error {
+func (s *GERStore) ProcessBlockCtx(ctx context.Context, b MBlock) error {
 	evs := make([]interface{}, len(b.Events))
 	for i, e := range b.Events {
 		ev := e.(*lastgersync.Event)
@@ -1061,8 +1065,9 @@ func (s *GERStore) ProcessBlock(b MBlock) error {
 		}
 		evs[i] = o
 	}
-	return s.P.ProcessBlock(bg, aggsync.Block{Num: b.Num, Hash: b.Hash, Events: evs})
+	return s.P.ProcessBlock(ctx, aggsync.Block{Num: b.Num, Hash: b.Hash, Events: evs})
 }
+func (s *GERStore) ProcessBlock(b MBlock) error { return s.ProcessBlockCtx(bg, b) }
 func (s *GERStore) Reorg(first uint64) error       { return s.P.Reorg(bg, first) }
 func (s *GERStore) LastProcessed() (uint64, error) { return s.P.GetLastProcessedBlock(bg) }
 func (s *GERStore) IsHalted() bool                 { return false }
